@@ -652,7 +652,8 @@ def run_sched_executions(binary, runs, work, tag, timeout=60, parallel=None):
     Returns (combined trace path, [result dict per run]) where result has verdict/failure/steps/diverged/choices,
     'rc', 'stderr' (sanitizer output etc.) and 'lines' = (first, last) 1-based line numbers in the combined trace."""
     os.makedirs(work, exist_ok=True)
-    env = dict(os.environ, ASAN_OPTIONS="detect_leaks=0:abort_on_error=0:exitcode=99:allocator_may_return_null=1",
+    # leaks are checked by the scenarios themselves (__lsan_do_recoverable_leak_check), never at exit (parked threads)
+    env = dict(os.environ, ASAN_OPTIONS="detect_leaks=1:leak_check_at_exit=0:abort_on_error=0:exitcode=99:allocator_may_return_null=1",
                UBSAN_OPTIONS="print_stacktrace=1:halt_on_error=1:exitcode=98")
 
     def one(i):
